@@ -41,6 +41,7 @@ PROPERTIES = {
             {"group": "events", "name": "c16_fs_format_5", "tiers": ("thorough",), "covers": ["last kind of the range"], "mem_gb": 12, "bounds": "kinds 35..41 of the table: real format!(\"{kind:?}\") (core::fmt not stubbed) must equal the documented name; unwind 34", "timeout": {"quick": 1500, "thorough": 3000}},
             {"group": "events", "name": "c16_signal_wire_roundtrip", "covers": ["numeric wire form", "named wire form"], "bounds": "every first-class signal and Custom(n) for all i32 n"},
             {"group": "events", "name": "c16_signal_wire_parse", "covers": ["custom"], "bounds": "every wire signal value (7 names, all i32 numbers)"},
+            {"group": "events", "name": "c16_fs_simple_class_all_kinds", "covers": ["Access(Close(Write))"], "bounds": "all 41 kinds (symbolic table index)"},
             {"group": "events", "name": "c16_fs_simple_only", "covers": ["remove"], "bounds": "5 coarse kinds"},
         ],
     },
